@@ -85,6 +85,9 @@ fn alphabet() -> Vec<Req> {
         v.push(Req { text: t, oneway: true, more: false, expect: Exp::Nothing });
     }
     v.push(Req { text: r#""method":"org.example.t.Stream""#, oneway: false, more: true, expect: Exp::Stream3 });
+    v.push(Req { text: r#""method":"org.example.t.Stream""#, oneway: true, more: true, expect: Exp::Nothing });
+    v.push(Req { text: r#""method":"org.varlink.service.GetInfo""#, oneway: true, more: true, expect: Exp::Nothing });
+    v.push(Req { text: r#""method":"org.varlink.service.GetInfo""#, oneway: false, more: true, expect: Exp::Info });
     v
 }
 fn render(r: &Req) -> Vec<u8> {
@@ -156,12 +159,16 @@ fn emit(ob: &str, found: bool, explored: usize, detail: Value) {
     println!("{}", json!({"obligation": ob, "found": found, "explored": explored, "detail": detail}));
 }
 
-// C01.served / C02.conserve / C06.reject / C04.silent / C03.*: all sequences of <= 3 requests, all at once and 1 byte at a time
+// all sequences of <= 3 requests, all at once and with 1- and 7-byte reads; one oracle per property class:
+//   order  (C01): handle returns Ok with nothing left over and the replies are, in order, the expected number of continues/final records
+//   route  (C03): every reply has the expected content (error name and parameter, GetInfo / description payload)
+//   oneway (C04): the replies are exactly those of the non-oneway requests
+//   seg    (C02): the reply bytes do not depend on how the reader segments the stream, nothing is left unread
+fn reduce(sh: &[String]) -> Vec<&'static str> { sh.iter().map(|x| if x == "cont" { "cont" } else { "final" }).collect() }
 fn search_sequences(obs: &[&str]) {
     let alpha = alphabet();
     let mut explored = 0usize;
-    let mut first: Option<Value> = None;
-    let mut first_oneway: Option<Value> = None;
+    let mut first: std::collections::HashMap<&'static str, Value> = std::collections::HashMap::new();
     let n = alpha.len();
     let mut seqs: Vec<Vec<usize>> = Vec::new();
     for a in 0..n { seqs.push(vec![a]); }
@@ -171,32 +178,40 @@ fn search_sequences(obs: &[&str]) {
         let seq: Vec<Req> = idx.iter().map(|i| alpha[*i].clone()).collect();
         let mut input = Vec::new();
         for r in &seq { input.extend(render(r)); }
+        let mut whole_out: Option<Vec<u8>> = None;
         for seg in [usize::MAX / 2, 1, 7] {
             explored += 1;
-            let (r, out, left) = run_handle(&input, seg);
+            let inp = input.clone();
+            let run = std::panic::catch_unwind(move || run_handle(&inp, seg));
+            let (r, out, left) = match run {
+                Ok(x) => x,
+                Err(_) => { first.entry("panic").or_insert(json!({"input": String::from_utf8_lossy(&input), "observed": "panic in handle()"})); continue; }
+            };
             let (replies, rest) = split_replies(&out);
             let shapes: Vec<String> = replies.iter().map(shape).collect();
             let exp = expected_shapes(&seq);
-            let ok = match &r { Ok((tail, None)) => tail.is_empty() && left == 0 && rest.is_empty() && shapes == exp, _ => false };
-            if !ok && first.is_none() {
-                first = Some(json!({"input": String::from_utf8_lossy(&input), "segment": if seg > 100 { 0 } else { seg }, "result": format!("{:?}", r.as_ref().map(|(t, u)| (t.len(), u.clone()))),
-                    "reply_shapes": shapes, "expected_shapes": exp, "unread_bytes_left_in_reader": left}));
-            }
-            // oneway alignment: the replies must be exactly those of the non-oneway requests
+            let describe = |why: &str| json!({"input": String::from_utf8_lossy(&input), "read_size": if seg > 100 { 0 } else { seg }, "why": why,
+                "result": format!("{:?}", r.as_ref().map(|(t, u)| (t.len(), u.clone()))), "reply_shapes": shapes, "expected_shapes": exp, "unread_bytes_left_in_reader": left});
+            let complete = matches!(&r, Ok((tail, None)) if tail.is_empty()) && left == 0 && rest.is_empty();
+            if !(complete && reduce(&shapes) == reduce(&exp)) { first.entry("order").or_insert(describe("number / order / kind (continues vs final) of replies")); }
+            if complete && reduce(&shapes) == reduce(&exp) && shapes != exp { first.entry("route").or_insert(describe("reply content")); }
             if seq.iter().any(|q| q.oneway) {
                 let nonone: Vec<Req> = seq.iter().filter(|q| !q.oneway).cloned().collect();
-                if shapes != expected_shapes(&nonone) && first_oneway.is_none() {
-                    first_oneway = Some(json!({"input": String::from_utf8_lossy(&input), "reply_bytes": out.len(), "reply_shapes": shapes, "expected_shapes": expected_shapes(&nonone)}));
+                if reduce(&shapes) != reduce(&expected_shapes(&nonone)) {
+                    first.entry("oneway").or_insert(json!({"input": String::from_utf8_lossy(&input), "reply_bytes": out.len(), "reply_shapes": shapes, "expected_shapes": expected_shapes(&nonone)}));
                 }
+            }
+            match &whole_out {
+                None => whole_out = Some(out.clone()),
+                Some(w) => if *w != out || left != 0 { first.entry("seg").or_insert(describe("reply bytes differ from the unsegmented run")); }
             }
         }
     }
     for ob in obs {
-        if ob.starts_with("C04") {
-            emit(ob, first_oneway.is_some(), explored, first_oneway.clone().unwrap_or(Value::Null));
-        } else {
-            emit(ob, first.is_some(), explored, first.clone().unwrap_or(Value::Null));
-        }
+        let class = if ob.starts_with("C04") || *ob == "C05.wire" { "oneway" } else if ob.starts_with("C03") { "route" } else if ob.starts_with("C02") { "seg" }
+            else if *ob == "C06.no-panic" { "panic" } else if ob.starts_with("C06") { "none" } else { "order" };
+        let f = first.get(class);
+        emit(ob, f.is_some(), explored, f.cloned().unwrap_or(Value::Null));
     }
 }
 
@@ -479,9 +494,11 @@ fn client_conn(replies: &[u8]) -> (Arc<RwLock<varlink::Connection>>, Arc<Mutex<V
 }
 type MC = varlink::MethodCall<Value, Value, varlink::Error>;
 fn search_client(obs: &[&str]) {
-    let mut found: Option<Value> = None;
+    // failures are kept per class: outcome (C07.outcome/kind), reuse (C07.reuse/take), busy (C07.busy), once (C07.once),
+    // iter (C05.recv/next/more), oneway (C04.client)
+    let mut found: std::collections::HashMap<&'static str, Value> = std::collections::HashMap::new();
     let mut explored = 0;
-    let mut fail = |d: Value| { if found.is_none() { found = Some(d); } };
+    let mut fail = |class: &'static str, d: Value| { found.entry(class).or_insert(d); };
     // outcome mapping
     let cases: Vec<(&str, &str)> = vec![
         (r#"{"parameters":{"a":1}}"#, "ok"),
@@ -502,10 +519,10 @@ fn search_client(obs: &[&str]) {
         let mut mc = MC::new(conn.clone(), "a.b.C", json!({}));
         let r = mc.call();
         let got = match &r { Ok(_) => "ok".to_string(), Err(e) => format!("{:?}", e.kind()) };
-        if !got.starts_with(want) { fail(json!({"reply": reply, "observed": got, "expected_prefix": want})); }
+        if !got.starts_with(want) { fail("outcome", json!({"reply": reply, "observed": got, "expected_prefix": want})); }
         // connection usable again
         let c = conn.read().unwrap();
-        if c.reader.is_none() || c.writer.is_none() { fail(json!({"reply": reply, "observed": "connection not returned after the final reply"})); }
+        if c.reader.is_none() || c.writer.is_none() { fail("reuse", json!({"reply": reply, "observed": "connection not returned after the final reply"})); }
     }
     // busy / once / oneway / more
     {
@@ -513,27 +530,27 @@ fn search_client(obs: &[&str]) {
         let stream = b"{\"continues\":true,\"parameters\":{\"n\":1}}\0{\"continues\":true,\"parameters\":{\"n\":2}}\0{\"parameters\":{\"n\":3}}\0{\"parameters\":{\"z\":1}}\0";
         let (conn, w) = client_conn(stream);
         let mut it = MC::new(conn.clone(), "a.b.More", json!({}));
-        match it.more() { Ok(_) => {}, Err(e) => fail(json!({"observed": format!("more() failed: {:?}", e.kind())})) }
+        match it.more() { Ok(_) => {}, Err(e) => fail("iter", json!({"observed": format!("more() failed: {:?}", e.kind())})) }
         let before = w.lock().unwrap().len();
         let mut other = MC::new(conn.clone(), "a.b.Other", json!({}));
-        match other.call() { Err(e) if format!("{:?}", e.kind()) == "ConnectionBusy" => {}, x => fail(json!({"observed": format!("call during iteration: {:?}", x.map_err(|e| format!("{:?}", e.kind()))), "expected": "Err(ConnectionBusy)"})) }
-        if w.lock().unwrap().len() != before { fail(json!({"observed": "bytes written by a call on a busy connection"})); }
+        match other.call() { Err(e) if format!("{:?}", e.kind()) == "ConnectionBusy" => {}, x => fail("busy", json!({"observed": format!("call during iteration: {:?}", x.map_err(|e| format!("{:?}", e.kind()))), "expected": "Err(ConnectionBusy)"})) }
+        if w.lock().unwrap().len() != before { fail("busy", json!({"observed": "bytes written by a call on a busy connection"})); }
         let items: Vec<String> = (&mut it).map(|r| match r { Ok(v) => v.to_string(), Err(e) => format!("{:?}", e.kind()) }).collect();
-        if items != vec![r#"{"n":1}"#, r#"{"n":2}"#, r#"{"n":3}"#] { fail(json!({"observed_items": items, "expected": ["{\"n\":1}", "{\"n\":2}", "{\"n\":3}"]})); }
+        if items != vec![r#"{"n":1}"#, r#"{"n":2}"#, r#"{"n":3}"#] { fail("iter", json!({"observed_items": items, "expected": ["{\"n\":1}", "{\"n\":2}", "{\"n\":3}"]})); }
         let mut again = MC::new(conn.clone(), "a.b.Next", json!({}));
-        match again.call() { Ok(v) if v == json!({"z": 1}) => {}, x => fail(json!({"observed": format!("call after iteration: {:?}", x.map_err(|e| format!("{:?}", e.kind())))})) }
+        match again.call() { Ok(v) if v == json!({"z": 1}) => {}, x => fail("reuse", json!({"observed": format!("call after iteration: {:?}", x.map_err(|e| format!("{:?}", e.kind())))})) }
         // second send on the same object
-        match again.call() { Err(e) if format!("{:?}", e.kind()) == "MethodCalledAlready" => {}, x => fail(json!({"observed": format!("second send: {:?}", x.map_err(|e| format!("{:?}", e.kind()))), "expected": "Err(MethodCalledAlready)"})) }
+        match again.call() { Err(e) if format!("{:?}", e.kind()) == "MethodCalledAlready" => {}, x => fail("once", json!({"observed": format!("second send: {:?}", x.map_err(|e| format!("{:?}", e.kind()))), "expected": "Err(MethodCalledAlready)"})) }
     }
     {
         explored += 1;
         let (conn, w) = client_conn(b"{\"parameters\":{\"only\":1}}\0");
         let mut ow = MC::new(conn.clone(), "a.b.One", json!({}));
-        if ow.oneway().is_err() { fail(json!({"observed": "oneway() failed"})); }
+        if ow.oneway().is_err() { fail("oneway", json!({"observed": "oneway() failed"})); }
         let sent = String::from_utf8_lossy(&w.lock().unwrap()).to_string();
-        if !sent.contains("\"oneway\":true") { fail(json!({"observed": sent, "expected": "request with oneway:true"})); }
+        if !sent.contains("\"oneway\":true") { fail("oneway", json!({"observed": sent, "expected": "request with oneway:true"})); }
         let mut c2 = MC::new(conn.clone(), "a.b.Two", json!({}));
-        match c2.call() { Ok(v) if v == json!({"only": 1}) => {}, x => fail(json!({"observed": format!("call after oneway: {:?}", x.map_err(|e| format!("{:?}", e.kind()))), "expected": "the reply that was in the stream (oneway must not consume it)"})) }
+        match c2.call() { Ok(v) if v == json!({"only": 1}) => {}, x => fail("oneway", json!({"observed": format!("call after oneway: {:?}", x.map_err(|e| format!("{:?}", e.kind()))), "expected": "the reply that was in the stream (oneway must not consume it)"})) }
     }
     // a `more` iteration whose final reply is an error ends there: next() yields None afterwards and the connection is free
     for k in 0..3 {
@@ -543,14 +560,14 @@ fn search_client(obs: &[&str]) {
         stream.extend_from_slice(b"{\"error\":\"org.example.Boom\"}\0{\"parameters\":{\"after\":1}}\0");
         let (conn, _w) = client_conn(&stream);
         let mut it = MC::new(conn.clone(), "a.b.More", json!({}));
-        if it.more().is_err() { fail(json!({"observed": "more() failed"})); continue; }
+        if it.more().is_err() { fail("iter", json!({"observed": "more() failed"})); continue; }
         let mut items = Vec::new();
         for _ in 0..(k + 6) {
             match it.next() { None => break, Some(r) => items.push(match r { Ok(v) => v.to_string(), Err(e) => format!("Err({:?})", e.kind()).chars().take(24).collect() }) }
         }
-        if items.len() != k + 1 { fail(json!({"continues_replies": k, "final": "error reply", "items_yielded_by_next": items, "expected_items": k + 1})); }
+        if items.len() != k + 1 { fail("iter", json!({"continues_replies": k, "final": "error reply", "items_yielded_by_next": items, "expected_items": k + 1})); }
         let mut after = MC::new(conn.clone(), "a.b.After", json!({}));
-        match after.call() { Ok(v) if v == json!({"after": 1}) => {}, x => fail(json!({"observed": format!("call after an iteration that ended in an error: {:?}", x.map_err(|e| format!("{:?}", e.kind())))})) }
+        match after.call() { Ok(v) if v == json!({"after": 1}) => {}, x => fail("reuse", json!({"observed": format!("call after an iteration that ended in an error: {:?}", x.map_err(|e| format!("{:?}", e.kind())))})) }
     }
     // a final reply whose parameters do not decode is an error for that call, and the connection is usable afterwards
     {
@@ -559,12 +576,19 @@ fn search_client(obs: &[&str]) {
         struct Typed { #[allow(dead_code)] v: i64 }
         let (conn, _w) = client_conn(b"{\"parameters\":{\"v\":\"not a number\"}}\0{\"parameters\":{\"v\":7}}\0");
         let mut c1 = varlink::MethodCall::<Value, Typed, varlink::Error>::new(conn.clone(), "a.b.T", json!({}));
-        if c1.call().is_ok() { fail(json!({"observed": "ill-typed parameters decoded"})); }
+        if c1.call().is_ok() { fail("outcome", json!({"observed": "ill-typed parameters decoded"})); }
         let mut c2 = varlink::MethodCall::<Value, Typed, varlink::Error>::new(conn.clone(), "a.b.T", json!({}));
-        match c2.call() { Ok(_) => {}, Err(e) => fail(json!({"observed": format!("call after a reply with ill-typed parameters: {:?}", e.kind()), "expected": "Ok (the connection is usable again after the final reply)"})) }
+        match c2.call() { Ok(_) => {}, Err(e) => fail("reuse", json!({"observed": format!("call after a reply with ill-typed parameters: {:?}", e.kind()), "expected": "Ok (the connection is usable again after the final reply)"})) }
     }
-    for ob in obs { emit(ob, found.is_some(), explored, found.clone().unwrap_or(Value::Null)); }
+    drop(fail);
+    for ob in obs {
+        let class = match *ob { "C07.outcome" | "C07.kind" => "outcome", "C07.reuse" | "C07.take" => "reuse", "C07.busy" => "busy", "C07.once" => "once",
+            "C05.recv" | "C05.next" | "C05.more" => "iter", "C04.client" => "oneway", _ => "none" };
+        let f = found.get(class);
+        emit(ob, f.is_some(), explored, f.cloned().unwrap_or(Value::Null));
+    }
 }
+
 
 // C07 (threads): a call whose request is still being serialised while another thread starts a `more` iteration on the same connection
 struct Gate { entered: std::sync::atomic::AtomicBool, release: std::sync::atomic::AtomicBool }
@@ -722,7 +746,7 @@ fn main() {
     let seq_obs: Vec<&str> = ["C01.served", "C01.answers", "C01.record", "C01.prefix-answered", "C02.conserve", "C06.reject", "C04.silent", "C04.funnel", "C05.wire",
         "C03.route", "C03.builtin", "C03.split", "C03.std-error", "C03.info", "C06.no-panic"].iter().cloned().filter(|o| m(o)).collect();
     if !seq_obs.is_empty() { search_sequences(&seq_obs); }
-    let cut_obs: Vec<&str> = ["C02.conserve", "C02.tail", "C01.served"].iter().cloned().filter(|o| m(o)).collect();
+    let cut_obs: Vec<&str> = ["C02.conserve", "C02.tail"].iter().cloned().filter(|o| m(o)).collect();
     if !cut_obs.is_empty() { search_cuts(&cut_obs); }
     if m("C05.gate") { search_gate("C05.gate"); }
     if m("C06.no-reply") { search_malformed("C06.no-reply"); }
@@ -733,7 +757,7 @@ fn main() {
     if m("C14.bound") { search_pool_bound("C14.bound"); }
     if m("C14.no-strand") { search_pool_strand("C14.no-strand"); }
     if m("C14.w-monotone") { search_pool_strand("C14.w-monotone"); }
-    let cl: Vec<&str> = ["C07.once", "C07.busy", "C07.take", "C07.outcome", "C07.kind", "C07.owner", "C07.wire", "C05.recv", "C05.next", "C05.more", "C04.client", "C07.no-panic"].iter().cloned().filter(|o| m(o)).collect();
+    let cl: Vec<&str> = ["C07.once", "C07.busy", "C07.take", "C07.reuse", "C07.outcome", "C07.kind", "C05.recv", "C05.next", "C05.more", "C04.client"].iter().cloned().filter(|o| m(o)).collect();
     if !cl.is_empty() { search_client(&cl); }
     let th: Vec<&str> = ["C07.busy", "C07.take", "C07.no-panic"].iter().cloned().filter(|o| m(o)).collect();
     if !th.is_empty() { search_client_threads(&th); }
